@@ -52,3 +52,11 @@ func init() {
 		return x.strEq(a[0].(*Str), a[1].(*Str))
 	}
 }
+
+func init() {
+	// vr.Pick(x): case-split x into its feasible concrete values
+	intrinsics[vrPkg+"Pick"] = func(x *Exec, c *frame, fn *ssa.Function, a []Value) Value {
+		t := termOf(a[0])
+		return mkBV(t.w, x.ps.concretize(t, "Pick"))
+	}
+}
